@@ -75,6 +75,14 @@ func TestVerif_C10_APIHammer(t *testing.T) {
 			cfg.controlling, cfg.lite, cfg.renomination = false, true, false
 			cfg.extra = []AgentOption{WithNet(fn), WithCandidateTypes([]CandidateType{CandidateTypeHost})} // (no URLs: host only)
 		}
+		withMux := !lite && rapid.IntRange(0, 3).Draw(rt, "udpMux") == 0
+		if withMux {
+			// host candidates through a UDP mux: the gatherers ask the mux for a connection by ufrag
+			muxBase := newC12Base("10.0.0.1:7000")
+			mux := NewUDPMuxDefault(UDPMuxParams{Logger: simLoggerFactory.NewLogger("mux"), UDPConn: muxBase})
+			defer func() { _ = mux.Close() }()
+			cfg.extra = append(cfg.extra, WithUDPMux(mux))
+		}
 		if continual {
 			// continual gathering: a monitor goroutine watches the interface list and re-gathers
 			cfg.extra = append(cfg.extra, WithContinualGatheringPolicy(GatherContinually), WithNetworkMonitorInterval(300*time.Microsecond))
@@ -299,7 +307,7 @@ func TestVerif_C10_APIHammer(t *testing.T) {
 				addViol("C10/atomicity/pair-with-stale-candidate", "after the program pair %d references a candidate that is not current (local %v remote %v)", p.id, fl, fr)
 			}
 		}
-		st.Record(vfHashStr(desc), mutators >= 2, "phase:"+phase, fmt.Sprintf("mutators:%d", min(mutators, 4)), fmt.Sprintf("continual-gathering:%v", continual), fmt.Sprintf("lite:%v", lite))
+		st.Record(vfHashStr(desc), mutators >= 2, "phase:"+phase, fmt.Sprintf("mutators:%d", min(mutators, 4)), fmt.Sprintf("continual-gathering:%v", continual), fmt.Sprintf("lite:%v", lite), fmt.Sprintf("udp-mux:%v", withMux))
 		if mutators >= 2 && st.WantSample() {
 			st.Sample(func() string { return desc })
 		}
